@@ -49,7 +49,7 @@ def key_of(c):
     if c["kind"] == "into":
         i = c["into"]
         return (f"into|n{i['n']}|forms{sorted(i['forms'])}|sattr{int(i['sattr'])}|skip{sorted(i['skip'])}|f{i['fattr']}|"
-                f"types{int(i['types'])}")
+                f"types{int(i['types'])}" + (f"|split:{i['split']}" if i["split"] != "one" else ""))
     return c["kind"] + "|" + ",".join(f"{v['n']}{v['attr']}" for v in c["vs"])
 
 
@@ -130,6 +130,11 @@ def into_module(c, key):
     if sattr:
         if types:
             struct_attr = "#[into(" + tup(["R" + ftys[f - 1][1] for f in comps]) + ")]\n"
+        elif forms and i["split"] != "one":
+            order = [f for f in ("owned", "ref", "ref_mut") if f in forms]
+            if i["split"] == "rev":
+                order.reverse()
+            struct_attr = "".join(f"#[into({f})]\n" for f in order)
         elif forms:
             struct_attr = "#[into(" + ", ".join(forms) + ")]\n"
         else:
@@ -167,6 +172,14 @@ def into_module(c, key):
         rows.append(f'rows.push(format!("has_owned_tuple {{}}", impls!({tup(comp_tys)}: From<S>)));')
     if not types and not (fattr and comps == [fattr]):
         exp.append(f"has_owned_tuple {'true' if 'owned' in eff_forms else 'false'}")
+    if not types and not (fattr and comps == [fattr]) and nc >= 1:
+        # presence AND absence of the reference forms (the impl set is exactly the documented one)
+        rt = tup(["&'static " + t for t in comp_tys])
+        rows.append(f"rows.push(format!(\"has_ref_tuple {{}}\", impls!({rt}: From<&'static S>)));")
+        exp.append(f"has_ref_tuple {'true' if 'ref' in eff_forms else 'false'}")
+        rt = tup(["&'static mut " + t for t in comp_tys])
+        rows.append(f"rows.push(format!(\"has_mut_tuple {{}}\", impls!({rt}: From<&'static mut S>)));")
+        exp.append(f"has_mut_tuple {'true' if 'ref_mut' in eff_forms else 'false'}")
     if "owned" in eff_forms:
         if types:
             rt = tup(["R" + t[1] for t in comp_tys])
